@@ -131,6 +131,8 @@ VARIANTS = {
                   '<dtml-var sequence-index>,<dtml-var sequence-number>,'
                   '<dtml-var sequence-roman>,<dtml-var sequence-letter>,'
                   '<dtml-if sequence-even>e</dtml-if>'
+                  '<dtml-if first-real>f</dtml-if><dtml-if last-real>l</dtml-if>'
+                  '<dtml-var sequence-var-real>,'
                   '<dtml-else>EMPTY</dtml-in>',
     # the flag forms render their body once, for the next / previous batch
     'next-form': '<dtml-in s next start=st end=en size=sz orphan=orp '
